@@ -38,11 +38,51 @@ Definition chunks := chunks_gen NumLinesInBatch NumChunksInBatch.
 Definition flatten_ranges (rs : list range) : list Z := concat (map (fun r => [fst r; snd r]) rs).
 
 (* correspondence entry point, see harness/streams/c20.go. Arguments beyond +-2^40 are outside the
-   modelled domain (the unary fuel would not be practical): empty answer. *)
+   modelled domain (the unary fuel would not be practical): empty answer.
+
+   Modes 2 and 3 RE-USE iterator values. The model of an iter.Seq value is the list it yields - each
+   time it is ranged: a traversal left with break after stop items yields the first stop elements, a
+   traversal nested into another one yields its whole list. *)
+Definition in_domain (a b : Z) : bool := negb ((Z.abs a >? 1099511627776) || (Z.abs b >? 1099511627776)).
+
+Definition seq_ranges (k a b : Z) : list range :=
+  if negb (in_domain a b) then [] else if k =? 0 then batches a else chunks (a, b).
+
+Fixpoint parse_seqs (n : nat) (l : list Z) : list (list range) * list Z :=
+  match n with
+  | O => ([], l)
+  | S n' =>
+      match l with
+      | k :: a :: b :: t => let '(ss, r) := parse_seqs n' t in (seq_ranges k a b :: ss, r)
+      | _ => ([], [])
+      end
+  end.
+
+Definition record (rs : list range) : list Z := Z.of_nat (length rs) :: flatten_ranges rs.
+
+(* steps (i, stop, j, at): range value i, break after stop items (stop <= 0: to the end); if j >= 0,
+   range value j to its end inside the loop body at item number at *)
+Fixpoint run_steps (seqs : list (list range)) (steps : list Z) : list Z :=
+  match steps with
+  | i :: stop :: j :: pos :: t =>
+      let full := nth (Z.to_nat i) seqs [] in
+      let outer := if 1 <=? stop then firstn (Z.to_nat stop) full else full in
+      let inner := if (0 <=? j) && (0 <=? pos) && (pos <? Z.of_nat (length outer))
+                   then record (nth (Z.to_nat j) seqs []) else [] in
+      record outer ++ inner ++ run_steps seqs t
+  | _ => []
+  end.
+
 Definition run_c20_batch (input : list Z) : list Z :=
   match input with
+  | 2 :: nseq :: nsteps :: rest =>
+      if (nseq <? 0) || (nseq >? 16) then [] else
+      let '(seqs, steps) := parse_seqs (Z.to_nat nseq) rest in run_steps seqs steps
+  | 3 :: n :: reps :: nil =>
+      if negb (in_domain n reps) || (reps >? 16) then [] else
+      concat (repeat (record (concat (map chunks (batches n)))) (Z.to_nat reps))
   | mode :: a :: b :: nil =>
-      if (Z.abs a >? 1099511627776) || (Z.abs b >? 1099511627776) then [] else
+      if negb (in_domain a b) then [] else
       if mode =? 0 then flatten_ranges (batches a) else flatten_ranges (chunks (a, b))
   | _ => nil
   end.
